@@ -18,6 +18,10 @@ use crate::shrink;
 use crate::trace::{Trace, Violation};
 
 pub const VERIF_DIR: &str = "/verif";
+/// a worker that starts no new run for this long is killed; whether that was a real hang is
+/// decided by re-executing the run in isolation (a loaded machine can make a heavy run slow)
+const WATCHDOG_S: u64 = 30;
+const ISOLATED_TIMEOUT_S: u64 = 45;
 
 static OUT: std::sync::Mutex<Option<std::fs::File>> = std::sync::Mutex::new(None);
 
@@ -315,7 +319,7 @@ pub fn run_isolated(prop: &str, trace: &Trace) -> Result<Option<String>, String>
         match child.try_wait() {
             Ok(Some(st)) => break Some(st),
             Ok(None) => {
-                if t0.elapsed() > Duration::from_secs(8) {
+                if t0.elapsed() > Duration::from_secs(ISOLATED_TIMEOUT_S) {
                     let _ = child.kill();
                     let _ = child.wait();
                     break None;
@@ -383,8 +387,13 @@ fn report_violation(
             }
         }
     };
+    // a worker killed by the watchdog (or found dead) is only a suspicion: the run must fail the
+    // same way when executed alone, otherwise it was merely slow on a loaded machine
+    if fatal && !test(&start_trace) {
+        return Err(format!("SPURIOUS {} at run index {} did not reproduce in isolation", class, trace.index));
+    }
     // the concrete trace must itself fail (it may have been produced by enumeration)
-    let base = if test(&start_trace) { start_trace } else { trace.clone() };
+    let base = if fatal || test(&start_trace) { start_trace } else { trace.clone() };
     let mut budget = shrink::Budget::new(if fatal { 300 } else { 2000 }, 60);
     let min = shrink::shrink(base, &mut test, &mut budget);
     // refresh the detail text from the minimised trace
@@ -481,6 +490,7 @@ pub fn run_batch(prop: &dyn Property, prop_id: &str, opts: &CheckOpts) -> Batch 
     let mut violations: Vec<(Violation, Trace)> = vec![];
     let mut sig_files: Vec<String> = vec![];
     let mut respawns = 0;
+    let mut hang_deaths = 0;
 
     loop {
         if slots.iter().all(|s| s.done) {
@@ -538,9 +548,14 @@ pub fn run_batch(prop: &dyn Property, prop_id: &str, opts: &CheckOpts) -> Batch 
                         }
                         runs_done += (i.saturating_sub(slots[k].start)) / workers as u64;
                         respawns += 1;
-                        if respawns > 40 {
+                        if sig == Some(9) {
+                            hang_deaths += 1;
+                        }
+                        if respawns > 40 || hang_deaths > 3 {
                             slots[k].done = true;
-                            harness_errors.push("too many worker deaths".to_owned());
+                            if hang_deaths <= 3 {
+                                harness_errors.push("too many worker deaths".to_owned());
+                            }
                         } else {
                             let next = i + workers as u64;
                             let left = budget_s.saturating_sub(t0.elapsed().as_secs()).max(1);
@@ -558,7 +573,7 @@ pub fn run_batch(prop: &dyn Property, prop_id: &str, opts: &CheckOpts) -> Batch 
         }
         // watchdog
         for s in slots.iter_mut() {
-            if !s.done && !s.got_result && s.last_index.is_some() && s.last_time.elapsed() > Duration::from_secs(8) {
+            if !s.done && !s.got_result && s.last_index.is_some() && s.last_time.elapsed() > Duration::from_secs(WATCHDOG_S) {
                 let _ = s.child.kill(); // SIGKILL -> reported as hang through Eof
                 s.last_time = Instant::now();
             }
@@ -587,6 +602,7 @@ fn report_batch(prop: &dyn Property, prop_id: &str, opts: &CheckOpts, b: Batch, 
     let mut known_hits: Vec<String> = vec![];
     let mut seen_classes: HashSet<String> = HashSet::new();
     let mut violation_lines: Vec<String> = vec![];
+    let mut spurious: Vec<String> = vec![];
     violations.sort_by(|a, b| a.1.index.cmp(&b.1.index));
     for (v, trace) in &violations {
         if !seen_classes.insert(v.class.clone()) {
@@ -616,10 +632,17 @@ fn report_batch(prop: &dyn Property, prop_id: &str, opts: &CheckOpts, b: Batch, 
                 reported += 1;
                 exit = 1;
             }
+            Err(e) if e.starts_with("SPURIOUS") => {
+                // not a violation and not a harness error: recorded in the evidence
+                spurious.push(e);
+            }
             Err(e) => {
                 harness_errors.push(e);
             }
         }
+    }
+    for e in &spurious {
+        eprintln!("note: {}", e);
     }
     if !harness_errors.is_empty() {
         for e in &harness_errors {
